@@ -11,6 +11,7 @@ Acknowledged = the logging call had returned before that instant.
 import json
 
 from esim import prog as P
+from esim import sched as _sched
 from esim.driver import Violation
 from esim.run import RunCtx, Tap, run_program
 from esim.simfile import SimFile
@@ -61,7 +62,7 @@ def prepare():
 
 
 def draw_cfg(st):
-    world = ["seq", "threads"][st.weighted([70, 30], "world")]
+    world = ["seq", "threads", "async"][st.weighted([60, 28, 12], "world")]
     cfg = {
         "world": world,
         "max_ops": [6, 15, 30][st.choose(3, "size")],
@@ -93,6 +94,12 @@ def draw_cfg(st):
     if cfg["real_os"]:
         world = "seq"
         cfg["world"] = "seq"
+    if world == "async":
+        # coroutines on the virtual-time loop: a logging call made while an event loop is running is
+        # acknowledged like any other
+        cfg["n_actors"] = 1 + st.choose(3, "actors")
+        cfg["spawn_kinds"] = ["task"]
+        cfg["w_ops"] = [7, 5, 1, 1, 1, 2, 2]
     if world == "threads":
         cfg["n_actors"] = 2 + st.choose(2, "actors")
         cfg["p_switch"] = [0.05, 0.2][st.choose(2, "p_switch")]
@@ -132,6 +139,22 @@ def setup(rc, interp):
             return json_default(o)
         kw["json_default"] = logging_default
     e.add_destinations(e.FileDestination(file=f, **kw), rc.tap)
+    # which logging call emitted a message: noted where the message enters the output stage (the call in
+    # progress when a destination finally sees it is the same one only if delivery is synchronous --
+    # which is what this property is about)
+    rc.sent_in = {}
+    dests = e.Logger._destinations
+    orig_send = dests.send
+
+    def send(message, logger=None):
+        a = _sched.current_actor()
+        slot = a.data if a is not None else rc.noactor
+        try:
+            rc.sent_in.setdefault(key_of(message), slot.get("call"))
+        except Exception:  # noqa
+            pass
+        return orig_send(message, logger)
+    dests.send = send
     rc.snaps = []
     crash = rc.dec.stream("crash")
     p, pf = rc.cfg["p_crash"], rc.cfg["p_crash_file"]
@@ -281,6 +304,11 @@ def real_os_leg(seed, dec, cfg, prog, sim_rc):
     return {"real_os_forks": 1, "real_os_killed": int(killed)}
 
 
+def call_of(rc, r):
+    c = rc.sent_in.get(key_of(r.msg)) or r.call
+    return c[0] if c else None
+
+
 def key_of(m):
     return (m.get("task_uuid"), tuple(m.get("task_level") or ()))
 
@@ -323,7 +351,7 @@ def check_snapshot(rc, sn, recs, offered, ret_at):
         seen.add(k)
         on_disk.append(r)
         # un-acknowledged complete lines must come from a write call already entered
-        cid = r.call[0] if r.call else None
+        cid = call_of(rc, r)
         if not (cid in ret_at and ret_at[cid] < sn.stamp):
             if not any(st < sn.stamp and w == raw + b"\n" for st, w in f.invoked):
                 raise Violation(("phantom_line", {"at": sn.tag}),
@@ -333,12 +361,12 @@ def check_snapshot(rc, sn, recs, offered, ret_at):
             raise Violation(("garbage_tail", {"at": sn.tag}),
                             "crash@%s: trailing fragment %r is not a prefix of an in-flight write" % (sn.tag, tail[:80]))
     # every acknowledged message is there
-    for r in recs:
-        cid = r.call[0] if r.call else None
-        if cid in ret_at and ret_at[cid] < sn.stamp and key_of(r.msg) not in seen:
+    for k, call in rc.sent_in.items():
+        cid = call[0] if call else None
+        if cid in ret_at and ret_at[cid] < sn.stamp and k not in seen:
             raise Violation(("ack_lost", {"at": sn.tag}),
                             "crash@%s: message %r was acknowledged (call returned at %d, crash at %d) but is not "
-                            "a complete line on disk" % (sn.tag, r.call[1], ret_at[cid], sn.stamp))
+                            "a complete line on disk" % (sn.tag, call[1], ret_at[cid], sn.stamp))
     # per-thread order
     by_actor = {}
     for r in on_disk:
